@@ -16,6 +16,7 @@ D = "scenic.core.distributions"
 
 def register(reg):
     install_distribution_stubs(reg)
+    register_orientation(reg)
 
     @reg.spec
     def vec_at(Dt, p, v):
@@ -135,3 +136,90 @@ def register(reg):
             properties=("C18", "C19"),
         )
     )
+
+
+def register_orientation(reg):
+    """Orientation.encodeTo / decodeFrom: four doubles = the quaternion, not re-normalised when decoding."""
+    import z3
+
+    from pyvc.builtins_model import NativeModule, isdouble
+    from pyvc.values import PObj, SV, compare, sv_and, tobool, tonum, toz3
+
+    class RotationModel:
+        name = "scipy.spatial.transform.Rotation"
+
+    def rotation_ctor(quat, normalize=True, copy=True):
+        r = PObj("Rotation", tag="rotation")
+        r.fields["quat"] = tuple(quat)
+        r.fields["normalized"] = normalize
+        r.fields["as_quat"] = BuiltinFn("as_quat", lambda: r.fields["quat"])
+        return r
+
+    def isinstance_hook(I, x, cls):
+        if cls is RotationModel or getattr(cls, "fn", None) is rotation_ctor or getattr(cls, "full", "").endswith(":Rotation"):
+            return isinstance(x, PObj) and x.cls == "Rotation"
+        return None
+
+    reg.constructors["scipy.spatial.transform._rotation:Rotation"] = lambda I, cls, args, kwargs: rotation_ctor(*args, **kwargs)
+
+    def orient(eng, name, I):
+        o = PObj(repo_class(f"{V}:Orientation"), tag=name)
+        q = tuple(eng.fresh_real(f"{name}.q{i}") for i in range(4))
+        o.fields["q"] = q
+        for i, x in enumerate(q):
+            eng.input_syms.append((f"{name}.q{i}", C.Real(), x))
+        return o
+
+    def setup_common(I, env):
+        reg.isinstance_hook = isinstance_hook
+        I.registry.global_overrides[f"{V}:Rotation"] = None
+
+    @reg.spec
+    def quat_at(Dt, p, o):
+        q = o.fields["q"]
+        return SV(z3.And(*[isdouble(Dt, tonum(p) + 8 * i, toz3(q[i], want_real=True)) for i in range(4)]))
+
+    reg.add(
+        C.Contract(
+            f"{V}:Orientation.encodeTo",
+            params=dict(cls=C.Const(lambda eng: repo_class(f"{V}:Orientation")), orientation=C.Ghost(orient), stream=C.Stream(at_end=True)),
+            ensures={"layout": "quat_at(stream.data, old(stream.pos), orientation)", "advance": "stream.pos == old(stream.pos) + 32 and stream.length == stream.pos"},
+            properties=("C18",),
+        )
+    )
+
+    def post_dec(I, env, outcome):
+        eng = I.eng
+        name = "vectors.Orientation.decodeFrom"
+        old = env.vars["_old"].vars["stream"]
+        if outcome[0] == "raise":
+            eng.check(f"{name}#raises.only_on_short_input", compare("<", old.length - old.pos, 32))
+            return
+        eng.check(f"{name}#ensures.refuses_truncation", compare(">=", old.length - old.pos, 32))
+        o = env.vars["_o"]
+        hyp = z3.And(*[isdouble(old.data, tonum(old.pos) + 8 * i, toz3(o.fields["q"][i], want_real=True)) for i in range(4)])
+        res = outcome[1]
+        ok = isinstance(res, PObj) and getattr(res.cls, "name", "") == "Orientation" and isinstance(res.fields.get("q"), tuple) and len(res.fields["q"]) == 4
+        eng.check(f"{name}#ensures.result_is_an_orientation", ok)
+        if ok:
+            eq = sv_and(*[compare("==", a, b) for a, b in zip(res.fields["q"], o.fields["q"])])
+            eng.check(f"{name}#ensures.quaternion_restored_exactly_without_renormalisation", z3.Implies(hyp, tobool(eq)))
+            eng.check(f"{name}#ensures.rotation_built_without_normalisation", res.fields["r"].fields["normalized"] is False)
+
+    reg.extra_modules = getattr(reg, "extra_modules", {})
+    reg.extra_modules.setdefault("scipy", NativeModule("scipy", {"spatial": NativeModule("scipy.spatial", {"transform": NativeModule("scipy.spatial.transform", {"Rotation": BuiltinFn("Rotation", rotation_ctor)})})}))
+    from pyvc import builtins_model as _bm
+
+    _bm.EXTERNAL.setdefault("scipy.spatial.transform.Rotation", lambda I: BuiltinFn("Rotation", rotation_ctor))
+    reg.isinstance_hook = isinstance_hook
+    reg.add(
+        C.Contract(
+            f"{V}:Orientation.decodeFrom",
+            params=dict(cls=C.Const(lambda eng: repo_class(f"{V}:Orientation")), stream=C.Stream(), _o=C.Ghost(orient)),
+            post=post_dec,
+            inline=["Orientation.__init__"],
+            raises=[C.Raises("struct.error", mode="may")],
+            properties=("C18",),
+        )
+    )
+    reg.trust("scipy Rotation (codec)", "Rotation(quat, normalize=False).as_quat() returns quat unchanged")
